@@ -80,14 +80,22 @@ def s2(ctx, rep):
     for base, label in (("TrialScheduler", "scheduler"), ("TunerCallback", "callback")):
         fam = ctx.down(base)
         n_ok = 0
-        for f, call in ctx.all_calls_anywhere(method="on_trial_result", recv=base, allow_name=False):
+        for f, call in ctx.all_calls_anywhere(method="on_trial_result", recv=base, allow_name=True):
             caller_cls = getattr(f, "cls", None)
+            # a receiver the resolver cannot type is matched by name over the whole package; its attribute name
+            # tells which interface it is (`...scheduler.on_trial_result`, `callback.on_trial_result`, `...searcher...`)
+            if not any(h == "type" for t, h in ctx.call_targets(f, call)):
+                last = U(call.func.value).split(".")[-1].lower()
+                fam_of_name = {"scheduler": "TrialScheduler", "callback": "TunerCallback", "searcher": "BaseSearcher",
+                               "_searcher_int": "BaseSearcher", "_random_searcher": "BaseSearcher"}
+                hit = [v for k, v in fam_of_name.items() if k in last]
+                if hit and hit[0] != base:
+                    continue
             top = f
             while top.parent is not None:
                 top = top.parent
             ok = (top.qualname.endswith("tuner.Tuner._update_running_trials")
-                  or (top.name == "on_trial_result" and caller_cls is not None and
-                      (caller_cls in fam or caller_cls in ctx.down("TunerCallback") or caller_cls in ctx.down("TrialScheduler"))))
+                  or (top.name == "on_trial_result" and caller_cls is not None and caller_cls in fam))
             if ok:
                 n_ok += 1
             else:
@@ -220,8 +228,10 @@ def s5(ctx, rep):
                             f, n.ast, f"`{counter}[{key}] += len(list)` precedes the removal in the same iteration",
                             "results are removed from the mailbox without advancing the cursor by their number",
                             witness=cfg.describe_path(p2) if p2 else None)
-        if n.kind == "stmt" and isinstance(n.ast, ast.Assign) and any(
-                isinstance(t, ast.Attribute) and t.attr == box for t in n.ast.targets):
+        is_reset = n.kind == "stmt" and ((isinstance(n.ast, ast.Assign) and any(
+            isinstance(t, ast.Attribute) and t.attr == box for t in n.ast.targets)) or any(
+            isinstance(x, ast.Call) and fn_name(x) == "clear" and box in U(x.func.value) for x in cfg.node_walk(n.id)))
+        if is_reset:
             # reset of the whole mailbox: a preceding loop over box.items() advancing each trial
             loops = [h for h in cfg.nodes if h.kind == "for" and box in U(h.ast.iter) and "items" in U(h.ast.iter)]
             ok = False
